@@ -749,6 +749,12 @@ func buildReply(h *helper, p *replyPlan, req *xmltree.Node, n int) string {
 			last.add(e)
 		}
 	}
+	if (class == "mutated" || class == "error-mutated") && r.Intn(2) == 0 {
+		// the entries of a list reply: empty, payload-less, text-only, foreign children
+		if degenerateEntries(r, last) > 0 {
+			muts = append(muts, "degenerate-entries")
+		}
+	}
 	if class == "mutated" || class == "error-mutated" || class == "misroute" {
 		pool := []*node{discoInfoReply(), commandReply("executing"), pubsubItems("n"), stanzaErr("cancel", "item-not-found", "x"), rsmSet("a", "b", 1), xform("form", "t", "a", "b")}
 		nm := 1 + r.Intn(3)
@@ -979,7 +985,7 @@ func runHelperCase(c *core.Case, hc *helperCase) {
 		classes = append(classes, cl)
 		c.Count("reply_class_"+p.Class, 1)
 		for _, m := range p.Muts {
-			if strings.HasPrefix(m, "err-") {
+			if strings.HasPrefix(m, "err-") || m == "degenerate-entries" {
 				c.Count("reply_"+m, 1)
 			}
 		}
